@@ -2,178 +2,205 @@ package main
 
 import (
 	"fmt"
-	"go/ast"
 	"go/token"
-	"go/types"
+	"sort"
 	"strings"
 
 	"golang.org/x/tools/go/ssa"
 )
 
 func init() {
-	register(&Rule{ID: "FD-03", Title: "entry-size limit agreement: what the write path acknowledges the read paths accept (same constant, guard before buffering)",
+	register(&Rule{ID: "FD-03", Title: "entry-size limit agreement: every length the write path acknowledges is accepted by the read paths (same limit, compatible comparison, guard before buffering)",
 		Props: []string{"C15", "C11"}, Floor: 3, Run: runFD03})
 }
 
-// maxEntryUse is one comparison against the MaxEntrySize constant object.
-type maxEntryUse struct {
-	fn     string // enclosing function display name
-	decl   *ast.FuncDecl
-	ifs    *ast.IfStmt
-	op     token.Token // normalised: <value> OP MaxEntrySize
-	value  ast.Expr
-	pos    token.Pos
-	reject bool // the taken branch returns a non-nil error
+// linearForm decomposes v into root + c through conversions and constant additions.
+func linearForm(v ssa.Value) (ssa.Value, int64) {
+	c := int64(0)
+	for i := 0; i < 10; i++ {
+		switch x := v.(type) {
+		case *ssa.Convert:
+			v = x.X
+			continue
+		case *ssa.ChangeType:
+			v = x.X
+			continue
+		case *ssa.BinOp:
+			if x.Op == token.ADD {
+				if k, ok := x.Y.(*ssa.Const); ok {
+					c += k.Int64()
+					v = x.X
+					continue
+				}
+				if k, ok := x.X.(*ssa.Const); ok {
+					c += k.Int64()
+					v = x.Y
+					continue
+				}
+			}
+			if x.Op == token.SUB {
+				if k, ok := x.Y.(*ssa.Const); ok {
+					c -= k.Int64()
+					v = x.X
+					continue
+				}
+			}
+		}
+		break
+	}
+	return v, c
+}
+
+type sizeLimit struct {
+	fn     *ssa.Function
+	ifi    *ssa.If
+	bound  int64 // largest payload length that passes the guard
+	desc   string
+	accept *ssa.BasicBlock
+}
+
+// blockRejects: the block (or its single-successor chain) returns a non-nil error.
+func blockRejects(b *ssa.BasicBlock) bool {
+	for depth := 0; depth < 3 && b != nil; depth++ {
+		for _, ins := range b.Instrs {
+			switch x := ins.(type) {
+			case *ssa.Return:
+				if len(x.Results) > 0 {
+					l := errLabel(x.Results[len(x.Results)-1])
+					return l != "nil" && l != "unknown"
+				}
+			case *ssa.Store:
+				if l := errLabel(x.Val); l == "error" || strings.HasPrefix(l, "sentinel:") {
+					return true
+				}
+			}
+		}
+		if len(b.Succs) != 1 {
+			return false
+		}
+		b = b.Succs[0]
+	}
+	return false
+}
+
+func sizeLimits(p *Prog, fns map[*ssa.Function]bool, max int64) []sizeLimit {
+	var out []sizeLimit
+	for fn := range fns {
+		live := liveBlocks(fn)
+		for _, b := range fn.Blocks {
+			if !live[b] {
+				continue
+			}
+			ifi, ok := b.Instrs[len(b.Instrs)-1].(*ssa.If)
+			if !ok {
+				continue
+			}
+			bo, ok := ifi.Cond.(*ssa.BinOp)
+			if !ok {
+				continue
+			}
+			x, y, op := bo.X, bo.Y, bo.Op
+			if c, ok := x.(*ssa.Const); ok && c.Value != nil && c.Int64() == max {
+				x, y = y, x
+				op = map[token.Token]token.Token{token.LSS: token.GTR, token.LEQ: token.GEQ, token.GTR: token.LSS, token.GEQ: token.LEQ}[op]
+			}
+			c, ok := y.(*ssa.Const)
+			if !ok || c.Value == nil || c.Int64() != max {
+				continue
+			}
+			_, off := linearForm(x)
+			// which edge rejects?
+			rejTrue, rejFalse := blockRejects(b.Succs[0]), blockRejects(b.Succs[1])
+			var bound int64
+			var accept *ssa.BasicBlock
+			switch {
+			case op == token.GTR && rejTrue && !rejFalse: // v > max -> reject ; accepts v <= max
+				bound, accept = max-off, b.Succs[1]
+			case op == token.GEQ && rejTrue && !rejFalse: // v >= max -> reject ; accepts v < max
+				bound, accept = max-off-1, b.Succs[1]
+			case op == token.LEQ && rejFalse && !rejTrue: // v <= max accept
+				bound, accept = max-off, b.Succs[0]
+			case op == token.LSS && rejFalse && !rejTrue:
+				bound, accept = max-off-1, b.Succs[0]
+			default:
+				continue
+			}
+			out = append(out, sizeLimit{fn: fn, ifi: ifi, bound: bound, accept: accept,
+				desc: fmt.Sprintf("%s: payload length + %d %s MaxEntrySize rejects (accepts lengths <= %d)", funcDisplay(fn), off, op, bound)})
+		}
+	}
+	sort.Slice(out, func(i, j int) bool { return out[i].desc < out[j].desc })
+	return out
 }
 
 func runFD03(p *Prog, r *RuleRun) {
-	pk := p.Pkg["segment"]
-	obj, _ := pk.Types.Scope().Lookup("MaxEntrySize").(*types.Const)
-	if obj == nil {
+	maxU, ok := constU64(p, "segment", "MaxEntrySize")
+	if !ok {
 		r.Unknown("anchor", "?", "segment.MaxEntrySize not found")
 		return
 	}
-	var uses []maxEntryUse
-	for _, f := range pk.Syntax {
-		if isTestFile(p, f) {
-			continue
-		}
-		for _, d := range f.Decls {
-			fd, ok := d.(*ast.FuncDecl)
-			if !ok || fd.Body == nil {
-				continue
-			}
-			ast.Inspect(fd.Body, func(n ast.Node) bool {
-				ifs, ok := n.(*ast.IfStmt)
-				if !ok {
-					return true
-				}
-				be, ok := ifs.Cond.(*ast.BinaryExpr)
-				if !ok {
-					return true
-				}
-				isMax := func(e ast.Expr) bool {
-					id, ok := ast.Unparen(e).(*ast.Ident)
-					return ok && pk.TypesInfo.Uses[id] == obj
-				}
-				u := maxEntryUse{fn: declName("segment", fd), decl: fd, ifs: ifs, pos: be.Pos()}
-				switch {
-				case isMax(be.Y):
-					u.op, u.value = be.Op, be.X
-				case isMax(be.X):
-					u.value = be.Y
-					u.op = map[token.Token]token.Token{token.LSS: token.GTR, token.LEQ: token.GEQ, token.GTR: token.LSS, token.GEQ: token.LEQ}[be.Op]
-				default:
-					return true
-				}
-				// does the then-branch return a non-nil error?
-				for _, st := range ifs.Body.List {
-					if rs, ok := st.(*ast.ReturnStmt); ok && len(rs.Results) > 0 {
-						last := rs.Results[len(rs.Results)-1]
-						if id, ok := last.(*ast.Ident); !ok || id.Name != "nil" {
-							u.reject = true
-						}
-					}
-				}
-				uses = append(uses, u)
-				return true
-			})
-		}
-	}
-	// read side: functions reachable from Reader.GetLog / Filer.DumpSegment
+	max := int64(maxU)
 	readRoots := []*ssa.Function{p.methodImpl("segment", "Reader", "GetLog"), p.Func("segment", "Filer.DumpSegment")}
 	writeRoot := p.methodImpl("segment", "Writer", "Append")
 	if readRoots[0] == nil || readRoots[1] == nil || writeRoot == nil {
 		r.Unknown("anchor:roots", "?", "Reader.GetLog / Filer.DumpSegment / Writer.Append not found")
 		return
 	}
-	inSet := func(set map[*ssa.Function]bool, name string) bool {
-		for fn := range set {
-			root := fn
-			for root.Parent() != nil {
-				root = root.Parent()
-			}
-			if funcDisplay(root) == name {
-				return true
-			}
-		}
-		return false
-	}
-	readSet := p.reachableFuncs(readRoots...)
 	writeSet := p.reachableFuncs(writeRoot)
-	nRead := 0
-	var readOps []token.Token
-	for _, u := range uses {
-		if !inSet(readSet, u.fn) || inSet(writeSet, u.fn) {
-			continue
-		}
-		nRead++
-		readOps = append(readOps, u.op)
-		key := u.fn + ":read-limit"
-		r.Check(u.reject && (u.op == token.GTR || u.op == token.GEQ), key, p.Position(u.pos),
-			fmt.Sprintf("read path rejects frames with length %s MaxEntrySize before allocating", u.op),
-			"the read path's MaxEntrySize test does not reject over-long frames (it must return an error on length > MaxEntrySize before allocating)")
-	}
-	if nRead < 2 {
-		r.Fail("read-limit:count", "?", fmt.Sprintf("only %d read-path comparisons against MaxEntrySize found (Reader.readFrame and Filer.DumpSegment must both bound the allocation)", nRead))
-	}
-	// write side
-	var w *maxEntryUse
-	for i := range uses {
-		if inSet(writeSet, uses[i].fn) {
-			w = &uses[i]
+	readSet := map[*ssa.Function]bool{}
+	for fn := range p.reachableFuncs(readRoots...) {
+		if !writeSet[fn] {
+			readSet[fn] = true
 		}
 	}
+	readers := sizeLimits(p, readSet, max)
+	minRead := int64(-1)
+	for _, rl := range readers {
+		r.OK(funcDisplay(rl.fn)+":read-limit", posOf(p, rl.ifi), rl.desc)
+		if minRead < 0 || rl.bound < minRead {
+			minRead = rl.bound
+		}
+	}
+	if len(readers) < 2 {
+		r.Fail("read-limit:count", "?", fmt.Sprintf("only %d read-path guards against MaxEntrySize found (Reader.readFrame and Filer.DumpSegment must both bound the allocation by it)", len(readers)))
+	}
+	writers := sizeLimits(p, writeSet, max)
 	key := funcDisplay(writeRoot) + ":write-limit"
-	if w == nil {
+	if len(writers) == 0 {
 		r.Fail(key, p.Position(writeRoot.Pos()), "the write path (everything reachable from (*segment.Writer).Append) never compares an entry's size with MaxEntrySize: an entry larger than the limit is written and acknowledged, and every later GetLog of it fails with ErrCorrupt (the read path refuses frames above MaxEntrySize); ErrTooBig is declared but never returned")
 		return
 	}
-	// same polarity as the readers (writer must reject at least what readers reject)
-	strict := true
-	for _, ro := range readOps {
-		if ro == token.GTR && w.op != token.GTR && w.op != token.GEQ {
-			strict = false
-		}
-		if ro == token.GEQ && w.op != token.GEQ {
-			strict = false
+	w := writers[0]
+	for _, x := range writers {
+		if x.bound < w.bound {
+			w = x
 		}
 	}
-	if !w.reject || !strict {
-		r.Fail(key, p.Position(w.pos), fmt.Sprintf("the write path's size test (%s MaxEntrySize, rejects=%v) accepts sizes the read path (%v MaxEntrySize) rejects", w.op, w.reject, readOps))
+	if minRead >= 0 && w.bound > minRead {
+		r.Fail(key, posOf(p, w.ifi), fmt.Sprintf("the write path acknowledges payload lengths up to %d but a read path only accepts up to %d (%s): entries in between are stored, acknowledged and can never be read back", w.bound, minRead, readers[0].desc))
 		return
 	}
-	// the value compared must be the payload length, and the guard must precede buffering in its function
-	lenOfData := false
-	if ce, ok := ast.Unparen(w.value).(*ast.CallExpr); ok {
-		if id, ok := ce.Fun.(*ast.Ident); ok && id.Name == "len" && len(ce.Args) == 1 {
-			lenOfData = true
-		}
-	}
-	firstBuffering := token.NoPos
-	var bufFns = map[string]bool{}
+	// the guard precedes buffering: its accept edge dominates every call of its function that can store to the commit buffer
 	a := resolveWriterAnchors(p)
-	for fn := range writeSet {
-		for _, b := range fn.Blocks {
-			for _, ins := range b.Instrs {
-				if st, ok := ins.(*ssa.Store); ok && fieldOfAddr(st.Addr) == a.commitBuf {
-					bufFns[fn.Name()] = true
-				}
+	before := true
+	for _, b := range w.fn.Blocks {
+		for _, ins := range b.Instrs {
+			ci, ok := ins.(ssa.CallInstruction)
+			if !ok {
+				continue
+			}
+			callee := ci.Common().StaticCallee()
+			if callee == nil || !p.reachesInstr(callee, func(i2 ssa.Instruction) bool {
+				st, ok := i2.(*ssa.Store)
+				return ok && fieldOfAddr(st.Addr) == a.commitBuf
+			}) {
+				continue
+			}
+			if !(w.accept == b || w.accept.Dominates(b)) {
+				before = false
 			}
 		}
 	}
-	ast.Inspect(w.decl.Body, func(n ast.Node) bool {
-		ce, ok := n.(*ast.CallExpr)
-		if !ok {
-			return true
-		}
-		if se, ok := ce.Fun.(*ast.SelectorExpr); ok && bufFns[se.Sel.Name] && (firstBuffering == token.NoPos || ce.Pos() < firstBuffering) {
-			firstBuffering = ce.Pos()
-		}
-		return true
-	})
-	before := firstBuffering == token.NoPos || w.ifs.Pos() < firstBuffering
-	r.Check(lenOfData && before, key, p.Position(w.pos), "the write path refuses entries with len(data) "+w.op.String()+" MaxEntrySize with an error before anything is buffered; same constant object as the read paths",
-		fmt.Sprintf("the write-path size guard is not on the payload length (%v) or comes after the entry was buffered (%v)", lenOfData, before))
-	_ = strings.TrimSpace
+	r.Check(before, key, posOf(p, w.ifi), w.desc+"; every length it accepts the read paths accept; the guard precedes buffering",
+		"the write-path size guard does not dominate the buffering of the entry: an oversized entry is already in the commit buffer when it is refused")
 }
